@@ -11,6 +11,14 @@
 #include <stdint.h>
 #include "muggle/c/base/utils.h"
 #include "muggle/c/sync/channel.h"
+#include "muggle/c/sync/array_blocking_queue.h"
+#include "muggle/c/sync/double_buffer.h"
+
+/* width and signedness of the struct fields the model treats as 32-bit cursors / int counters:
+ * "W <id> <sizeof> <signed 0|1> <is an integer type 0|1>"; ids are those of model_field_widths (coq/C01/Dispatch.v) */
+#define FIELD(id, obj, f) printf("W %d %zu %d %d\n", id, sizeof((obj).f), ((__typeof__((obj).f))-1) < (__typeof__((obj).f))0, \
+	__builtin_types_compatible_p(__typeof__((obj).f), unsigned int) || __builtin_types_compatible_p(__typeof__((obj).f), int) || \
+	__builtin_classify_type((obj).f) == 1)
 
 static long off(void *p) { return p ? (long)((char *)p - (char *)(void *)muggle_channel_init) : 0; }
 
@@ -41,6 +49,19 @@ int main(void)
 			if (req > 0xffffffffULL) continue;
 			printf("N %llu %u\n", (unsigned long long)req, (unsigned)(muggle_sync_t)muggle_next_pow_of_2(req));
 		}
+	}
+	{
+		muggle_array_blocking_queue_t q;
+		muggle_double_buffer_t d;
+		muggle_single_buffer_t b;
+		FIELD(0, chan, capacity); FIELD(1, chan, write_cursor); FIELD(2, chan, read_cursor); FIELD(3, chan, cached_r_cur);
+		FIELD(4, chan, write_synclock);
+		FIELD(10, q, capacity); FIELD(11, q, take_idx); FIELD(12, q, put_idx); FIELD(13, q, cnt);
+		FIELD(20, d, capacity); FIELD(21, b, cnt); FIELD(22, d, non_blocking);
+		/* the element types of the slot arrays: a message is a void* */
+		printf("W 30 %zu 0 0\n", sizeof(chan.blocks[0].data));
+		printf("W 31 %zu 0 0\n", sizeof(q.datas[0]));
+		printf("W 32 %zu 0 0\n", sizeof(b.datas[0]));
 	}
 	/* requests whose rounding does not fit muggle_sync_t must be refused before any allocation */
 	{
